@@ -74,6 +74,20 @@ int main(int argc, char** argv)
 		// table growth: keys crossing the rehash threshold, every one still found
 		{ HashMap<int, int> g(16); for (int i = 0; i < 2000; i++) g[i * 16] = i; if (g.length() != 2000) { printf("REPRODUCED length after growth\n"); return 1; }
 		  for (int i = 0; i < 2000; i++) if (!g.has(i * 16) || g[i * 16] != i) { printf("REPRODUCED key %d lost in rehash\n", i * 16); return 1; } }
+		// entries in the LAST bucket of the table (keys = 255 mod 256) are enumerated, cloned and compared like all others
+		{ HashMap<int, int> h; Set<int> st; for (int k : { 255, 511, -1, 3, 254 }) { h[k] = k * 2; st << k; } int n = 0, sum = 0; foreach2(int k, int v, h) { n++; sum += v - 2 * k; }
+		  if (n != 5 || sum != 0) { printf("REPRODUCED enumeration of a HashMap with keys in the last bucket visits %d of 5 entries\n", n); return 1; }
+		  HashMap<int, int> c = h.clone(); if (c.length() != 5 || !c.has(255) || !c.has(-1) || !(c == h)) { printf("REPRODUCED clone of a HashMap loses the entries of the last bucket\n"); return 1; }
+		  HashMap<int, int> d2 = h.clone(); d2[255] = 0; if (d2 == h) { printf("REPRODUCED HashMap::operator== ignores a difference in the last bucket\n"); return 1; }
+		  int m = 0; foreach(int x, st) { (void)x; m++; } if (m != 5) { printf("REPRODUCED Set enumeration visits %d of 5 members\n", m); return 1; } }
+		// String keys where one is a proper prefix of another, and the empty key, in every insertion order
+		{ const char* keys[] = { "", "a", "ab", "abc", "Accept", "Accept-Encoding", "Content", "Content-Type", "b" }; const int NK = 9;
+		  for (int rot = 0; rot < NK; rot++) for (int dir = 0; dir < 2; dir++) { Dic<int> d; std::map<std::string, int> ref;
+			for (int q = 0; q < NK; q++) { int i = dir ? (rot + NK - q) % NK : (rot + q) % NK; d[keys[i]] = i; ref[keys[i]] = i; }
+			if (d.length() != (int)ref.size()) { printf("REPRODUCED Dic with prefix keys has %d entries, reference %d\n", d.length(), (int)ref.size()); return 1; }
+			for (auto& e : ref) if (!d.has(e.first.c_str()) || d[e.first.c_str()] != e.second) { printf("REPRODUCED Dic lookup of key '%s' among its prefixes\n", e.first.c_str()); return 1; }
+			std::string last; bool first = true; foreach2(String& k, int v, d) { (void)v; if (!first && !(last < std::string(*k))) { printf("REPRODUCED Dic enumeration not in ascending key order at '%s'\n", *k); return 1; } last = *k; first = false; }
+			d.remove("Accept"); ref.erase("Accept"); if (d.length() != (int)ref.size() || !d.has("Accept-Encoding") || d.has("Accept")) { printf("REPRODUCED Dic::remove of a key that is a prefix of another\n"); return 1; } } }
 		printf("OK %ld sequences\n", runs); return 0;
 	}
 	return 2;
